@@ -121,7 +121,7 @@ def parse_out(line):
     return (texts if len(texts) == 4 else None), vals
 
 
-def run_slice(exe, lines, budget):
+def run_slice(exe, lines, budget, env=None):
     """line-protocol harness on one slice with a time budget; a sanitizer abort marks its line CRASH
     and the harness is restarted on the rest; lines not answered within the budget stay None.
     returns (outputs aligned with lines, {index: stderr}, timed_out?)"""
@@ -130,7 +130,7 @@ def run_slice(exe, lines, budget):
     crashes = {}
     start = 0
     t_end = time.time() + budget
-    env = vv.san_env()
+    env = env or vv.san_env()
     restarts = 0
     while start < len(lines):
         left = t_end - time.time()
@@ -420,14 +420,48 @@ def run_(ck):
         cases += g.quote_cases()
         cases += g.exec_cases(3000 if ck.thorough else 400, depth=5 if ck.thorough else 4)
     cases = [c for c in cases if all(s.get("ident", "real_add") in catalog.infos for s in c.syms)]
+    # process-history stream: the same sequence of build / export / destroy tasks twice, once for the sanitised
+    # harness without quarantine and once for an unsanitised build (the production allocator); both reuse the
+    # addresses of destroyed symbols
+    if not ck.replay_path:
+        life = L.Gen(ck.rng, catalog).lifecycle_cases(20 if ck.thorough else 6)
+        import copy
+        life2 = copy.deepcopy(life)
+        for c in life2:
+            c.tag = "lifecycle-plain"
+        cases = cases + life + life2
 
     hl = [c.harness_line() for c in cases]
     ml = [c.model_line(class_index) for c in cases]
     # harness and extracted model run in parallel on interleaved slices (slice i = lines i, i+n, ...), so
     # that every stream progresses evenly; the harness has a time budget: a tree that prints very slowly
     # must not hide the cases that follow -- unanswered cases are skipped and counted, never an alarm
-    nsl = max(1, min(8, len(ml) // 200))
     budget = 600 if ck.thorough else 75
+    # the lifecycle cases run apart, in order, in ONE process each
+    seq_a = [k for k, c in enumerate(cases) if c.tag == "lifecycle"]
+    seq_p = [k for k, c in enumerate(cases) if c.tag == "lifecycle-plain"]
+    rest = [k for k, c in enumerate(cases) if not c.tag.startswith("lifecycle")]
+    env_nq = vv.san_env()
+    env_nq["ASAN_OPTIONS"] += ":quarantine_size_mb=0:thread_local_quarantine_size_kb=0"
+    life_out = {}
+    if seq_a:
+        o, cr, to = run_slice(harness, [hl[k] for k in seq_a], budget, env_nq)
+        for k, l in zip(seq_a, o):
+            life_out[k] = l
+    if seq_p:
+        shared = vv.BUILD
+        vv.BUILD = os.path.join(shared, "c19")
+        try:
+            plain = vv.build_harness("h_lang", san="plain")
+        finally:
+            vv.BUILD = shared
+        o, cr, to = run_slice(plain, [hl[k] for k in seq_p], budget)
+        for k, l in zip(seq_p, o):
+            life_out[k] = l
+    hl_all, ml_all, cases_all = hl, ml, cases
+    hl = [hl_all[k] for k in rest]
+    ml_rest = [ml_all[k] for k in rest]
+    nsl = max(1, min(8, len(ml_all) // 200))
     with concurrent.futures.ThreadPoolExecutor(2 * nsl) as ex:
         fh = [ex.submit(run_slice, harness, hl[i::nsl], budget) for i in range(nsl)]
         fm = [ex.submit(vv.run_lines, model, "\n".join(ml[i::nsl]) + "\n") for i in range(nsl)]
@@ -439,15 +473,18 @@ def run_(ck):
             o, cr, to = fut.result()
             timed_out = timed_out or to
             for j, l in enumerate(o):
-                hout[i + j * nsl] = l
+                hout[rest[i + j * nsl]] = l
             for j, e in cr.items():
-                crashes[i + j * nsl] = e
+                crashes[rest[i + j * nsl]] = e
         for i, fut in enumerate(fm):
             rc, o, merr = fut.result()
             if rc != 0 or len(o) != len(ml[i::nsl]):
                 raise vv.BuildError("model driver failed: rc=%s answered %d of %d: %s" % (rc, len(o), len(ml[i::nsl]), merr[:500]))
             for j, l in enumerate(o):
                 mout[i + j * nsl] = l
+    for k, l in life_out.items():
+        hout[k] = l
+    hl = hl_all
     skipped = len([1 for x in hout if x is None])
     if skipped:
         ck.notes.append("the harness did not answer %d of %d cases within its %d s budget (printing is much slower "
@@ -684,9 +721,18 @@ def run_(ck):
         c = cases[k]
         ids = c.idents()
         text = impl[k][0][f].decode("latin-1") if impl[k] and impl[k][0] else None
+        hist = {}
+        if c.tag.startswith("lifecycle"):
+            # the failure depends on the tasks run before in the same process: the replay is the whole sequence
+            seq = [j for j, x in enumerate(cases) if x.tag == c.tag and j <= k]
+            hist = {"cases": [cases[j].to_json() for j in seq],
+                    "history_note": "sequence of build / export / destroy tasks of one process (%s); the last one fails"
+                                    % ("sanitised harness without quarantine" if c.tag == "lifecycle" else "unsanitised build")}
         ck.add_violation("%s:%s:%s" % (f, kind, "/".join(ids[:6])),
-                         "the %s text %r printed for %s %s: %s" % (f, text, "/".join(ids[:8]), kind, msg),
-                         {"case": c.to_json(), "format": f, "impl_text": text,
+                         "the %s text %r printed for %s %s%s: %s" % (f, text, "/".join(ids[:8]), kind,
+                                                                   " (after a history of %d tasks in the same process)"
+                                                                   % (len(hist["cases"]) - 1) if hist else "", msg),
+                         {**hist, "case": c.to_json(), "format": f, "impl_text": text,
                           "all_formats": {x: impl[k][0][x].decode("latin-1") for x in FMTS} if impl[k] and impl[k][0] else None,
                           "verdict": msg, "failing_cases_of_this_kind": len([1 for x in failures if x[0] == f and x[1] == kind])})
     ck.coverage["per_stream"] = hist
